@@ -45,7 +45,7 @@ def run(ctx):
         "harness (2 MB parser thread per case, catch_unwind, process-level timeout), lean_exe compilation of the driver",
     ]
     ctx.assumptions += [
-        "'on a 2 MB thread stack' is measured by the harness (every case is parsed on a 2 MB thread), not proved: frame sizes are the compiler's",
+        "'on a 2 MB thread stack' is measured by the harness (every case is parsed on a 2 MB thread of the RELEASE-profile build, opt-level 2, overflow checks on), not proved: frame sizes are the compiler's, and an unoptimised build needs several times the stack per nesting level",
         "the lexer half of the property is Gold.C05 (`lex` is a total function by construction); here the real lexer is only exercised",
     ]
     if ctx.replay:
